@@ -34,6 +34,10 @@ var c11Queries = []string{
 	"SELECT FUSE(FIRST(items)), a, 'x' AS p FROM t WHERE a > ?",
 	"SELECT FUSE(o) AS f, a AS k FROM t WHERE a > ?",
 	"SELECT FUSE(o), FUSE(FIRST(w)), a AS k FROM t WHERE a > ?",
+	// functions that need an option the caller did not pass (no variable map, no constants)
+	"SELECT SETVAR('seen', a), a FROM t WHERE a > ?",
+	"SELECT a, GETVAR('seen') AS g, CONSTANT('k') AS c FROM t WHERE a > ?",
+	"SELECT a FROM t WHERE SETVAR('seen', a) IS NULL OR a > ?",
 	// joins with unmatched rows on either side, with and without aliases (from here: unwrapped only)
 	"SELECT * FROM t LEFT JOIN u ON t.a = u.a WHERE a > ?",
 	"SELECT * FROM t RIGHT JOIN u ON t.a = u.a WHERE a > ?",
@@ -50,7 +54,7 @@ var c11Queries = []string{
 	"SELECT x.a AS k, y.w AS v FROM t x LEFT JOIN u y ON x.a = y.a WHERE x.a > ? ORDER BY k",
 }
 
-const c11FirstJoin = 30
+const c11FirstJoin = 33
 
 var faultAt, faultCalls int
 
